@@ -29,7 +29,7 @@ case "$act" in
 esac
 """
 
-RUNS = ["real", "0", "1", "2", "3", "kill", "term", "missing"]
+RUNS = ["real", "0", "1", "2", "3", "kill", "term", "missing", "interrupt"]
 RESETS = ["ok", "GitCommandError", "OSError"]
 
 
@@ -66,6 +66,7 @@ def run_baseline(repo, argv, plan, reset_plan, tmpdir, shimdir):
     if os.path.exists(state):
         os.remove(state)
     missing_at = [i for i, a in enumerate(plan) if a == "missing"]
+    interrupt_at = [i for i, a in enumerate(plan) if a == "interrupt"]
     old_env = dict(os.environ)
     real_reset = gitmod.refs.head.HEAD.reset
     calls = {"n": 0}
@@ -91,12 +92,17 @@ def run_baseline(repo, argv, plan, reset_plan, tmpdir, shimdir):
             n = int(open(state).read()) if os.path.exists(state) else 0
             open(state, "w").write(str(n + 1))
             raise FileNotFoundError(2, "No such file or directory: 'bandit'")
+        if i in interrupt_at:
+            # the user presses ^C while the subprocess runs
+            n = int(open(state).read()) if os.path.exists(state) else 0
+            open(state, "w").write(str(n + 1))
+            raise KeyboardInterrupt()
         return real_co(cmd, *a, **k)
 
     old_tmp = tempfile.tempdir
     try:
         os.environ["PATH"] = shimdir + os.pathsep + old_env.get("PATH", "")
-        os.environ["SHIM_PLAN"] = ",".join(a if a != "missing" else "0" for a in plan)
+        os.environ["SHIM_PLAN"] = ",".join(a if a not in ("missing", "interrupt") else "0" for a in plan)
         os.environ["SHIM_STATE"] = state
         for k in ("GIT_DIR", "GIT_WORK_TREE"):
             os.environ.pop(k, None)
@@ -125,7 +131,7 @@ def run(R, replay=None):
         R.broken.append({"what": "proof obligation no longer checks: %s (%s) %s" % (f["file"], f["why"], f.get("theorem") or ""),
                          "log": f.get("log", "")})
     R.rule = ("scenario enumeration on real temporary git repositories (two commits on a branch): outcome of the first and second "
-              "bandit subprocess in {real run, exit 0/1/2/3, killed by SIGKILL/SIGTERM, executable missing} x outcome of each "
+              "bandit subprocess in {real run, exit 0/1/2/3, killed by SIGKILL/SIGTERM, executable missing, interrupted by ^C} x outcome of each "
               "repo.head.reset in {ok, GitCommandError, OSError} x output format; HEAD, branch, working tree, temporary directory "
               "and exit status observed after bandit-baseline returns and compared with the BaselineTool model and with the "
               "statement; plus the refusal preconditions; non-trivial = every scenario")
@@ -146,7 +152,8 @@ def run(R, replay=None):
             for runs in (("real", "real"), ("1", "0")):
                 scen.append((runs, tuple(rp)))
     if R.tier == "quick":
-        keep = [s for s in scen if s[0] in (("real", "real"), ("missing", "0"), ("0", "missing"), ("kill", "1"), ("2", "2"), ("1", "term"))]
+        keep = [s for s in scen if s[0] in (("real", "real"), ("missing", "0"), ("0", "missing"), ("kill", "1"), ("2", "2"), ("1", "term"),
+                                            ("interrupt", "0"), ("1", "interrupt"))]
         rest = [s for s in scen if s not in keep]
         scen = keep + rng.sample(rest, 14)
     else:
@@ -175,7 +182,7 @@ def run(R, replay=None):
             n_resets_before_cleanup = 0
             if resets[0] == "ok":
                 n_resets_before_cleanup = 1
-                if runs[0] != "missing" and resets[1] == "ok":
+                if runs[0] not in ("missing", "interrupt") and resets[1] == "ok":
                     n_resets_before_cleanup = 2
             cleanup_how = resets[n_resets_before_cleanup] if n_resets_before_cleanup < 3 else "ok"
             if cleanup_how == "ok":
@@ -202,6 +209,8 @@ def run(R, replay=None):
             def ru(x):
                 if x == "missing":
                     return "(Raised %s)" % L.pstr("FileNotFoundError")
+                if x == "interrupt":
+                    return "(Raised %s)" % L.pstr("KeyboardInterrupt")
                 code = {"real": None, "kill": -9, "term": -15}.get(x, None)
                 if x in ("0", "1", "2", "3"):
                     code = int(x)
@@ -212,7 +221,7 @@ def run(R, replay=None):
             roles = list(resets)
             if resets[0] != "ok":
                 role = (resets[0], "ok", resets[1])
-            elif runs[0] == "missing":
+            elif runs[0] in ("missing", "interrupt"):
                 role = ("ok", "ok", resets[1])
             elif resets[1] != "ok":
                 role = ("ok", resets[1], resets[2])
